@@ -15,6 +15,17 @@ pub fn mw(name: &str) -> MainWind {
 
 pub fn n_hash(depth: u8) -> u64 { 12u64 << (2 * depth as u32) }
 
+/// History follow-up: the cell having the SAME NUMBER as `h` at another depth (a result must not depend on the previous
+/// call: this is the pair of calls that exposes a hidden cache keyed by the cell number only)
+pub fn same_number_other_depth(rng: &mut Rng, depth: u8, h: u64) -> (u8, Cell) {
+  let mut d2 = rng.below(30) as u8;
+  if d2 == depth { d2 = (depth + 1) % 30; }
+  // prefer a depth at which the number is a valid cell
+  let mut tries = 0;
+  while h >= n_hash(d2) && tries < 8 { d2 = d2 + (29 - d2 + 1) / 2; tries += 1; if d2 > 29 { d2 = 29; } }
+  (d2, cell_of_hash(d2, h % n_hash(d2)))
+}
+
 /// a returned cell number as [b, i, j]; out-of-range numbers become [99, 0, 0]
 pub fn cell_json(depth: u8, h: u64) -> Value {
   if h >= n_hash(depth) { json!([99, 0, 0]) } else { cell_of_hash(depth, h).json() }
@@ -204,6 +215,7 @@ pub fn record_c04(rng: &mut Rng, count: u64, out: &mut Out) {
     let n = 1u32 << depth;
     let c = if rng.bool() { special_cells(rng, depth) } else { Cell { b: rng.below(12) as u8, i: rng.below(n as u64) as u32, j: rng.below(n as u64) as u32 } };
     out.emit(neigh_event(depth, c));
+    if k % 6 == 5 { let (d2, c2) = same_number_other_depth(rng, depth, hash_of_cell(depth, c)); out.emit(neigh_event(d2, c2)); }
   }
 }
 
@@ -327,6 +339,7 @@ pub fn record_c14(rng: &mut Rng, count: u64, out: &mut Out) {
     let n = 1u32 << depth;
     let c = if rng.below(3) != 0 { special_cells(rng, depth) } else { Cell { b: rng.below(12) as u8, i: rng.below(n as u64) as u32, j: rng.below(n as u64) as u32 } };
     out.emit(edges_event(depth, c, dd));
+    if k % 6 == 5 { let (d2, c2) = same_number_other_depth(rng, depth, hash_of_cell(depth, c)); if d2 + dd <= 29 { out.emit(edges_event(d2, c2, dd)); } }
   }
 }
 
@@ -459,6 +472,7 @@ pub fn record_c03(rng: &mut Rng, count: u64, out: &mut Out) {
       0 | 1 | 2 => {
         let c = if rng.bool() { special_cells(rng, depth) } else { Cell { b: rng.below(12) as u8, i: rng.below(n as u64) as u32, j: rng.below(n as u64) as u32 } };
         out.emit(cellgeo_event(depth, c));
+        if k % 20 == 0 { let (d2, c2) = same_number_other_depth(rng, depth, hash_of_cell(depth, c)); out.emit(cellgeo_event(d2, c2)); }
       }
       3 => {
         // a cell number >= 12 * 4^depth is rejected by every accessor
@@ -535,6 +549,12 @@ pub fn record_c19(rng: &mut Rng, count: u64, out: &mut Out) {
       _ => gen_position(rng),
     };
     out.emit(bilinear_event(depth, lon.rem_euclid(TWO_PI), lat, class));
+    if k % 6 == 5 {
+      let h = nested::get_or_create(depth).hash(lon.rem_euclid(TWO_PI), lat);
+      let (d2, c2) = same_number_other_depth(rng, depth, h);
+      let (lo, la) = ref_unproj_local((1u64 << d2) as f64, c2.b, c2.i as f64 + rng.range(0.05, 0.95), c2.j as f64 + rng.range(0.05, 0.95));
+      out.emit(bilinear_event(d2, lo, la, "same-number"));
+    }
   }
 }
 pub fn replay_c19(line: &Value, out: &mut Out, _stats: &mut ReplayStats) {
